@@ -24,6 +24,18 @@ def D1(m, R):
         expr, ret = single_return(f)
         cons = 'AnsiString.%s delegate' % name
         if expr is None:
+            # a bound normalised the way slicing does before the call: str does not clamp the bounds of a search
+            clamp = [n for n in f.walk() if isinstance(n, ast.Assign) and len(n.targets) == 1 and isinstance(n.targets[0], ast.Name) and
+                     n.targets[0].id in f.own_params()[1:2] and isinstance(n.value, ast.Call) and
+                     (call_name(n.value) in ('_slice_val_to_idx', 'min', 'max') or
+                      (call_name(n.value) == 'indices' and isinstance(n.value.func, ast.Attribute) and call_name(n.value.func.value) == 'slice'))]
+            delegates = [n for n in f.walk() if isinstance(n, ast.Call) and isinstance(n.func, ast.Attribute) and n.func.attr == name and
+                         norm(n.func.value) == '%s.%s' % (f.self_name, ro.TEXT)]
+            if clamp and delegates and name in ('count', 'find', 'rfind', 'index', 'rindex', 'endswith'):
+                R.viol(f, clamp[0], '%s is clamped into the text (%s) before str.%s is called: str does not do that -- "abc".count("", 5) is 0, "abc".find("", 5) is -1 and '
+                                    '"abc".endswith("", 5) is False, while with the start clamped to 3 they are 1, 3 and True' % (
+                                        clamp[0].targets[0].id, short(clamp[0].value), name), construct=cons)
+                continue
             R.undecided(f, f.node, 'body is not a single return', construct=cons)
             continue
         if not (isinstance(expr, ast.Call) and isinstance(expr.func, ast.Attribute)):
@@ -675,7 +687,7 @@ def D3(m, R):
             continue
         calls_twin = any(isinstance(x, ast.Call) and isinstance(x.func, ast.Attribute) and x.func.attr == name and
                          (norm(x.func.value) == wrapped or isinstance(x.func.value, ast.Name)) for x in sf.walk())
-        inert = all(call_name(x) in ('AnsiStr', 'AnsiString', 'copy', 'str') for x in sf.walk() if isinstance(x, ast.Call))
+        inert = all(call_name(x) in ('AnsiStr', 'AnsiString', 'copy', 'str', '__str__') for x in sf.walk() if isinstance(x, ast.Call))
         if not calls_twin and inert:
             R.viol(sf, ret, 'returns %s without ever calling AnsiString.%s: the AnsiStr result is computed by something other than the twin operation' % (short(expr), name),
                    construct=cons)
@@ -979,6 +991,10 @@ def D4(m, R):
                 return None if v is None else not v
             if isinstance(t, ast.Compare) and len(t.ops) == 1:
                 l, r_, op = t.left, t.comparators[0], t.ops[0]
+                if isinstance(op, (ast.Is, ast.IsNot)) and const_val(r_, 0) is None and isinstance(l, (ast.Attribute, ast.List, ast.Tuple, ast.Dict)):
+                    return isinstance(op, ast.IsNot)              # a local written out as what it stands for: an enum member / a display is an object
+                if isinstance(op, (ast.Is, ast.IsNot)) and const_val(r_, 0) is None and isinstance(l, ast.Constant):
+                    return (l.value is None) if isinstance(op, ast.Is) else (l.value is not None)
                 if isinstance(op, (ast.Is, ast.IsNot)) and const_val(r_, 0) is None and isinstance(l, ast.Name):
                     if l.id in facts:
                         return (not facts[l.id]) if isinstance(op, ast.Is) else facts[l.id]
